@@ -448,6 +448,49 @@ fn mutate(rng: &mut Rng, base: &[u8], hdr: usize) -> (Vec<u8>, &'static str) {
     }
 }
 
+/// Control packets with the compression flag: the control byte and its
+/// arguments come out of the Huffman decoder, the wire length says nothing
+/// about them.
+fn compressed_control(rng: &mut Rng, v7: bool) -> (Vec<u8>, &'static str) {
+    let ctrl = rng.below(7) as u8;
+    let k = rng.usize_below(9);
+    let mut plain = vec![ctrl];
+    plain.extend(rng.bytes(k));
+    if rng.chance(1, 3) {
+        // a plausible token behind it
+        plain.extend([0x12, 0x34, 0x56, 0x78]);
+    }
+    let comp = libtw2_huffman::compress(&plain);
+    let mut d = Vec::new();
+    if v7 {
+        let flags = p7::PACKETFLAG_CONTROL | p7::PACKETFLAG_COMPRESSION | if rng.chance(1, 4) { p7::PACKETFLAG_REQUEST_RESEND } else { 0 };
+        d.push(flags << 2 | (rng.u8() & 3));
+        d.push(rng.u8());
+        d.push(if rng.bool() { 0 } else { rng.u8() });
+        if rng.chance(1, 3) {
+            d.extend([0xff; 4]);
+        } else {
+            d.extend([1, 2, 3, 4]);
+        }
+    } else {
+        let flags = p6::PACKETFLAG_CONTROL | p6::PACKETFLAG_COMPRESSION | if rng.chance(1, 4) { p6::PACKETFLAG_REQUEST_RESEND } else { 0 };
+        d.push(flags << 4 | (rng.u8() & 3));
+        d.push(rng.u8());
+        d.push(if rng.bool() { 0 } else { rng.u8() });
+    }
+    d.extend(comp);
+    // junk behind the end-of-stream symbol; a token request must be at least 519 bytes on the wire
+    let tail = match rng.below(4) {
+        0 => 0,
+        1 => rng.usize_below(16),
+        2 => 520,
+        _ => rng.usize_below(600),
+    };
+    let t = rng.bytes(tail);
+    d.extend(t);
+    (d, "compressed-control")
+}
+
 fn bombs(rng: &mut Rng, v7: bool) -> (Vec<u8>, &'static str) {
     let which = rng.below(5);
     let n = *rng.pick(&[1390usize, 1393, 1394, 1397, 1398, 1400, 1401, 2000, 3000, 8000]);
@@ -539,7 +582,7 @@ fn main() {
         }
     });
     ctx.run_cases("bombs", n / 10 + 5, |ctx, i, rng| {
-        let (d, what) = bombs(rng, i % 2 == 1);
+        let (d, what) = if i % 4 >= 2 { compressed_control(rng, i % 2 == 1) } else { bombs(rng, i % 2 == 1) };
         all_versions(ctx, &d, what, rng.u64());
         ctx.count(&format!("bomb[{}]", what), 1);
         ctx.case(Some(verif_harness::fnv1a(&d)));
